@@ -80,12 +80,25 @@ class Line(GeoBody):
 
     def __hash__(self):
         """Return hash of a Line"""
+        # Equal lines must have equal hashes, so the hash may only depend on
+        # the line itself: the unit direction with a canonical sign and the
+        # moment, which is the same for every support point of the line
+        dv = self.dv.normalized()
+        for component in dv:
+            if abs(component) > get_eps():
+                if component < 0:
+                    dv = -dv
+                break
+        moment = dv.cross(self.sv)
         return hash(
             (
                 "Line",
-                round(self.dv[0], SIG_FIGURES),
-                round(self.dv[1], SIG_FIGURES),
-                round(self.dv[0] * self.sv[1] - self.dv[1] * self.sv[0], SIG_FIGURES),
+                round(dv[0], SIG_FIGURES),
+                round(dv[1], SIG_FIGURES),
+                round(dv[2], SIG_FIGURES),
+                round(moment[0], SIG_FIGURES),
+                round(moment[1], SIG_FIGURES),
+                round(moment[2], SIG_FIGURES),
             )
         )
 
